@@ -32,12 +32,6 @@ Qed.
 (* a well-formed sequence: optional E0/E1, optional F0, one code byte *)
 Definition seq2 (p : prefix) (brk : bool) (c : N) : list N := path2 (p, brk) ++ [c].
 
-(* from the initial context a well-formed sequence yields silence for every prefix byte and then
-   exactly the table's verdict, and leaves the automaton in the initial context - provided the code
-   byte is in code position (E0, E1, F0 directly after nothing are prefixes, not codes) *)
-Definition code_position (p : prefix) (brk : bool) (c : N) : bool :=
-  brk || negb (c =? 0xF0) && (negb (prefix_eqb p P0) || negb ((c =? 0xE0) || (c =? 0xE1))).
-
 Lemma seq2_run_b :
   forallb (fun p => forallb (fun brk => forallb (fun c =>
      implb (code_position p brk c)
